@@ -934,6 +934,13 @@ class Ctx:
         self.asserted += 1
         if self.sym:
             m = self.ex.valid(cond)
+            # a label this task has already reported often enough: keep the plain model (the expensive witness
+            # polishing below is only worth it for the counterexamples that are kept and replayed)
+            polished = getattr(self, "seen_labels", {}).get(label, 0) < getattr(self, "keep_per_label", 3)
+            if m is not None and not polished:
+                self.violations.append(
+                    Violation(label, detail, model_to_dict(m, self.vars), list(self.ex.script), self.path_index))
+                return False
             if m is not None and self.snap:
                 m2 = self.ex.nice_model(self.snap, [] if isinstance(cond, bool) else [z3.Not(cond)])
                 m = m2 if m2 is not None else m
